@@ -3,8 +3,9 @@
    floor) driven by process_dir, which filters -mindepth and produces the -depth order itself, on the
    tree [n] as the follow mode unfolds it (Leaf = non-directory or unfollowed link, Dang = dangling
    link under a follow mode, Bad = unreadable directory or link closing a cycle, Dir = directory
-   or followed link to one).  The unfolding itself is the correspondence check's job. *)
-Require Import Walk WalkPre WalkSpec WalkDefer.
+   or followed link to one).  The unfolding is [WalkGraph.unfold], on the graph of directory identities the
+   correspondence check reads off the disk (theorems at the end). *)
+Require Import Walk WalkPre WalkSpec WalkDefer WalkGraph WalkGraphProofs.
 From Coq Require Import List Arith Bool.
 Import ListNotations.
 
@@ -38,3 +39,44 @@ Example C02_witness :
   /\ walk {| mind := 3; maxd := 1; post := false |} noP t = [Err [2]]
   /\ walk {| mind := 1; maxd := 2; post := true |} noP t = [Ent [11; 1] 2 false; Ent [12; 1] 2 false; Ent [1] 1 true; Err [2]; Ent [3] 1 false].
 Proof. vm_compute. repeat split; reflexivity. Qed.
+
+(* ---- the unfolding: what -L, -H and -xdev make of a graph of directory identities ---- *)
+
+(* The stack of (depth, identity) pairs process_dir keeps while the entries go by in pre-order answers,
+   for every finite tree of identities, what the recursive definition answers: a directory is refused
+   exactly when one of the directories it lies below (and that was entered) has its identity. *)
+Theorem C02_ancestor_stack : forall t, anc_run [] (preorder 0 t) = verdicts [] t.
+Proof. exact stack_is_ancestors. Qed.
+Print Assumptions C02_ancestor_stack.
+
+(* Under -L the walk of any finite graph of directories ends, cycles or not: with more fuel than there
+   are directory identities the cut unfolding never runs out (so [walk] has a finite tree to visit). *)
+Theorem C02_unfolding_total : forall g xdev rootdev U, closed g U ->
+  forall fuel anc top e, NoDup anc -> incl anc U -> ent_in U e -> length U - length anc < fuel ->
+  unfold g true xdev rootdev fuel anc top e <> None.
+Proof. exact unfold_total. Qed.
+Print Assumptions C02_unfolding_total.
+
+(* ... and in it no directory is entered below itself, while every directory refused is one of its own ancestors *)
+Theorem C02_no_directory_below_itself : forall g xdev rootdev fuel anc top e t,
+  unfold g true xdev rootdev fuel anc top e = Some t -> chain_ok anc t.
+Proof. exact unfold_chain_ok. Qed.
+Print Assumptions C02_no_directory_below_itself.
+
+(* non-vacuity: r(1) = { a -> 2 }, 2 = { up -> 1 (a cycle), o -> 3 on another device, f }, 3 = { g } *)
+Example C02_unfold_witness :
+  let g := [(1, Some [(0, GDir 2 0)]); (2, Some [(0, GFile); (1, GDir 3 7); (2, GDir 1 0)]); (3, Some [(0, GFile)])] in
+  option_map erase (unfold g true false 0 4 [] true (GDir 1 0))
+    = Some (Dir [(0, Dir [(0, Leaf); (1, Dir [(0, Leaf)]); (2, Bad)])])
+  /\ option_map erase (unfold g true true 0 4 [] true (GDir 1 0))
+    = Some (Dir [(0, Dir [(0, Leaf); (1, Dir []); (2, Bad)])])
+  /\ unfold g false false 0 4 [] true (GDir 1 0) = None
+  /\ closed g [1; 2; 3]
+  /\ anc_run [] (preorder 0 (TD 1 [TD 2 [TL; TD 3 [TL]; TD 1 []]; TD 2 []]))
+     = [VEnter; VEnter; VOther; VEnter; VOther; VLoop; VEnter].
+Proof.
+  cbn zeta. repeat split; try (vm_compute; reflexivity).
+  intros id ch H x Hx. cbn in H.
+  destruct id as [|[|[|[|id]]]]; cbn in H; injection H as <-; cbn in Hx;
+    repeat (destruct Hx as [<-|Hx]; [cbn; auto|]); try contradiction.
+Qed.
